@@ -273,18 +273,27 @@ def chkPack (sizes : List Rat) (cap : Rat) (asg : List Nat) (k : Nat) : Bool :=
   (List.range k).all fun b =>
     (List.range sizes.length).any (fun i => asg.getD i 0 == b) && decide (loadOf sizes asg b ≤ cap)
 
-/-- Bounded oracle (not a theorem subject): least number of bins by exhaustive placement with
-the obvious bound, items in the given order.  `bins` = remaining capacities. -/
-def minBinsGo (cap : Rat) : List Rat → List Rat → Nat → Nat
-  | [], bins, best => min best bins.length
-  | s :: rest, bins, best =>
-    if best ≤ bins.length then best else
+/-- Bounded oracle (not a theorem subject): least number of bins by exhaustive placement with the
+obvious bound, items `(index, size)` in the given order.  `bins` = remaining capacities, `cur` =
+bin chosen for each item placed so far; returns the least bin count found *and the placement that
+achieves it*, which the driver submits to the verified checker `chkPack` (so the count is a
+certified upper bound on the optimum; only its minimality rests on the search being exhaustive). -/
+def minBinsGo (cap : Rat) : List (Nat × Rat) → List Rat → List (Nat × Nat) → Nat × List (Nat × Nat) →
+    Nat × List (Nat × Nat)
+  | [], bins, cur, best => if bins.length < best.1 then (bins.length, cur) else best
+  | (i, s) :: rest, bins, cur, best =>
+    if best.1 ≤ bins.length then best else
     let best1 := (List.range bins.length).foldl (fun bst b =>
       let r := bins.getD b 0
-      if s ≤ r && !(bins.take b).contains r then minBinsGo cap rest (bins.set b (r - s)) bst else bst) best
-    minBinsGo cap rest (bins ++ [cap - s]) best1
+      if s ≤ r && !(bins.take b).contains r then
+        minBinsGo cap rest (bins.set b (r - s)) ((i, b) :: cur) bst
+      else bst) best
+    minBinsGo cap rest (bins ++ [cap - s]) ((i, bins.length) :: cur) best1
 
-def minBins (sizes : List Rat) (cap : Rat) : Nat :=
-  minBinsGo cap (sizes.mergeSort fun a b => decide (b ≤ a)) [] sizes.length
+/-- `(bin count, assignment)` of a packing with the least number of bins the search found -/
+def minBins (sizes : List Rat) (cap : Rat) : Nat × List Nat :=
+  let order := (List.range sizes.length).mergeSort fun i j => decide (sizes.getD j 0 ≤ sizes.getD i 0)
+  let r := minBinsGo cap (order.map fun i => (i, sizes.getD i 0)) [] [] (sizes.length + 1, [])
+  (r.1, (List.range sizes.length).map fun i => (r.2.lookup i).getD 0)
 
 end Solvor.Pack
